@@ -1370,7 +1370,12 @@ class HTMLTemplateCompiler (TemplateCompiler, FixedHTMLParser.HTMLParser):
 			self.popTag ((tag, None))
 			
 	def handle_data (self, data):
-		self.parseData (html.escape (data, quote=False))
+		if (self.cdata_elem is not None):
+			# Inside <script> and <style> the parser hands us raw text: HTML recognises no
+			# entity references there, so escaping it would change the script or style sheet.
+			self.parseData (data)
+		else:
+			self.parseData (html.escape (data, quote=False))
 		
 	# These two methods are required so that we expand all character and entity references prior to parsing the template.
 	def handle_charref (self, ref):
